@@ -55,6 +55,11 @@ func draw(t *rapid.T) sim.ChainCase {
 						}
 					}
 				})
+			case 5: // several v2 contracts for one period (their proofs share a chain index element) ...
+				b.AfterV1(func() { b.V2FormBatch() })
+			case 6, 7: // ... and contracts proven together in one transaction when several are provable
+				b.V1Prove()
+				b.AfterV1(func() { b.V2Resolve() })
 			case 3: // several revisions of different contracts in one block
 				b.V1Revise()
 				b.V1Revise()
